@@ -85,6 +85,7 @@ func loadProgram(repo string, goarch string) (*Program, error) {
 	resolveIfaceRoles(p)
 	resolveRoles(p)
 	resolveByFingerprint(p)
+	resolveFieldsByFingerprint(p)
 	return p, nil
 }
 
